@@ -30,6 +30,11 @@ fn main() {
             jmv::props::c17::serve();
             std::process::exit(0);
         }
+        "c13-child" => {
+            let h = std::thread::Builder::new().stack_size(runner::STACK).spawn(jmv::props::c13::child_main).unwrap();
+            let _ = h.join();
+            std::process::exit(0);
+        }
         "c16-child" => {
             let n: usize = args.get(1).and_then(|s| s.parse().ok()).unwrap_or(4);
             jmv::props::c16::child_main(n);
